@@ -129,6 +129,16 @@ CHECKS = {
              "End to end: every key accepted without warning changes the CLI result for some pair of values; unknown keys warn and change nothing.",
         note="Trusted: the 8-line precedence model in checks/c16.py; interception by replacing two module attributes inside the harness process.",
         ref="DESIGN.md §2 C16"),
+    "C18": dict(
+        level="exploration",
+        technique="bounded-exhaustive enumeration of .gitignore configurations in a fixed tree; differential oracle against real git",
+        text="In a fixed tree (files named a.md/b.md/c.md at the root, in sub, sub/deep, other, other/sub) the .gitignore files at the root, in sub "
+             "and in sub/deep take every sequence of 1-2 lines over a 24-pattern alphabet (basename, anchored, multi-segment, directory-only, *, **, "
+             "?, negations, comment, escaped #, trailing space), alone, in pairs and in triples; for each configuration and for both walk roots "
+             "the listing of FileResolver must equal `git ls-files -co --exclude-standard` run in the same tree (ignore files above the walk root "
+             "removed for git), and with respect_gitignore off it must equal the listing with no .gitignore at all.",
+        note="Trusted: git 2.39 with a private HOME and neutral configuration as the oracle.",
+        ref="DESIGN.md §2 C18"),
     "C05": dict(
         level="model_checking",
         technique="explicit-state model of the greedy filler, exhaustive trace enumeration + replay of every trace against the implementation",
